@@ -37,6 +37,12 @@ EXC = {
     "TypeError": TypeError,
     "CustomParseError": CustomParseError,
     "LookupError": LookupError,
+    "InterruptedError": InterruptedError,
+    "TimeoutError": TimeoutError,
+    "PermissionError": PermissionError,
+    "EOFError": EOFError,
+    "MemoryError": MemoryError,
+    "KeyboardInterruptLike": InterruptedError,
     "ArithmeticError": ArithmeticError,
     "Exception": Exception,
     # never captured by design of taskproc (explicit re-raise clause): only in the 'uncaptured' config
@@ -46,11 +52,11 @@ EXC = {
 }
 CAPTURABLE = [
     "ValueError", "KeyError", "OSError", "AssertionError", "ZeroDivisionError", "IndexError",
-    "UnicodeError", "StopIteration", "CustomParseError",
+    "UnicodeError", "StopIteration", "CustomParseError", "InterruptedError", "TimeoutError", "PermissionError", "EOFError", "MemoryError",
 ]
 SUPER = {
     "KeyError": "LookupError", "IndexError": "LookupError", "ZeroDivisionError": "ArithmeticError",
-    "UnicodeError": "ValueError",
+    "UnicodeError": "ValueError", "InterruptedError": "OSError", "TimeoutError": "OSError", "PermissionError": "OSError",
 }
 RUNTIME_FAMILY = ["RuntimeError", "NotImplementedError", "RecursionError"]
 
@@ -68,6 +74,7 @@ class PlainPayload:
     exc_args: tuple
     raises_names: tuple
     ret: str = "wrapped"
+    chain: str | None = None
 
     def raises(self):
         return tuple(EXC[n] for n in self.raises_names)
@@ -85,6 +92,7 @@ def _visual_payload_class():
         exc_args: tuple = ()
         raises_names: tuple = ()
         ret: str = "wrapped"
+        chain: str | None = None
 
         def raises(self):
             return tuple(EXC[n] for n in self.raises_names)
@@ -103,6 +111,19 @@ def _ensure_classes():
         VisPayload = _visual_payload_class()
 
 
+def _raise(exc_name, exc_args, chain):
+    """Raise the payload's exception, optionally chained the way wrapping code does (`raise X from low_level`)."""
+    if chain:
+        how, low = chain.split(":")
+        if how == "cause":
+            raise EXC[exc_name](*exc_args) from EXC[low]("low level")
+        try:
+            raise EXC[low]("low level")
+        except Exception:  # noqa: BLE001
+            raise EXC[exc_name](*exc_args)  # implicit __context__
+    raise EXC[exc_name](*exc_args)
+
+
 _LEGACY: dict = {}  # file name -> payload spec, for the legacy entry (payloads are plain path strings)
 
 
@@ -117,10 +138,10 @@ def work(payload, *args, **kwargs):
         p = _LEGACY[name]
         if p["behave"] == "ok":
             return p["value"] if p.get("ret") == "raw" else [p["value"], list(args), sorted(kwargs.items())]
-        raise EXC[p["exc"]](*p["exc_args"])
+        _raise(p["exc"], p["exc_args"], p.get("chain"))
     if payload.behave == "ok":
         return payload.value if getattr(payload, "ret", None) == "raw" else [payload.value, list(args), sorted(kwargs.items())]
-    raise EXC[payload.exc](*payload.exc_args)
+    _raise(payload.exc, payload.exc_args, getattr(payload, "chain", None))
 
 
 def pick_str(x):
@@ -172,6 +193,9 @@ def gen_spec(seed: int, config: str | None = None) -> dict:
                 pool_ex.append("TypeError")
             p["exc"] = rng.choice(pool_ex)
             p["exc_args"] = rng.choice([[], [f"boom{k}"], ["two", k], [f"e{k}", k, None]])
+            if rng.random() < 0.25:
+                # wrapped low-level error: `raise X from Y` (explicit cause) or raised while handling Y (implicit context)
+                p["chain"] = rng.choice(["cause", "cause", "context"]) + ":" + rng.choice(["ValueError", "KeyError", "OSError", "ZeroDivisionError"])
             r = rng.random()
             if r < 0.5:
                 p["raises"] = []
@@ -277,7 +301,7 @@ def build_payloads(spec: dict):
         path = Path(f"/sim/file{p['key']:02d}.txt")
         text = f"line {p['key']}\n// c\n\n"
         kw = dict(key=p["key"], behave=p["behave"], value=p["value"], exc=p["exc"],
-                  exc_args=tuple(p["exc_args"]), raises_names=tuple(p["raises"]), ret=p.get("ret", "wrapped"))
+                  exc_args=tuple(p["exc_args"]), raises_names=tuple(p["raises"]), ret=p.get("ret", "wrapped"), chain=p.get("chain"))
         if p["cls"] == "visual":
             out.append(VisPayload(path=path, payload=text, **kw))
         else:
@@ -638,6 +662,10 @@ def shrink_candidates(spec: dict):
         if p.get("ret") == "raw":
             s = copy.deepcopy(spec)
             s["payloads"][i].pop("ret")
+            yield s
+        if p.get("chain"):
+            s = copy.deepcopy(spec)
+            s["payloads"][i].pop("chain")
             yield s
     for key, simple in (("entry", "parproc"), ("pool", "process"), ("pickle", False), ("pickable", "identity"),
                         ("extra_args", []), ("extra_kwargs", {}), ("summary", False), ("verbose", False)):
